@@ -183,6 +183,14 @@ def main(argv=None):
                     # the same first non-listed deviation as under the engine (not an earlier listed one)
                     res = run_worker(prop, n, impl, 0, 1, t.get('params', {}), 0, 0, 0, open_sigs, env,
                                      replay=v['args'])
+                    if res.get('reproduced') and getattr(h, 'stub_kernel', False) and \
+                            res.get('exc_type') in ('TypeError', 'AttributeError', 'ImportError', 'NameError'):
+                        # a kernel harness drives *private* functions with stub containers: a TypeError / AttributeError out of
+                        # that contact means the private interface no longer fits the stubs (renamed parameter, another
+                        # attribute read from a specification).  That is not evidence about the property: the kernel is
+                        # reported as inapplicable to this tree and the property is decided by its tiers on real objects.
+                        agg['inapplicable'] = 'kernel does not fit this tree: %s' % (res.get('msg') or '')[:300]
+                        continue
                     if res.get('reproduced'):
                         replays_reproduced += 1
                         sig = res.get('signature')
@@ -207,7 +215,14 @@ def main(argv=None):
                                  and not any(s.get('fatal') for s in sts))
             agg['solver_s'] = round(agg['solver_s'], 2)
             agg['cpu_s'] = round(agg['cpu_s'], 2)
-            if agg['reached'] == 0 and not violations and not agg['known_hits']:
+            for st in sts:
+                if st.get('inapplicable'):
+                    agg['inapplicable'] = st['inapplicable']
+            if agg.get('inapplicable'):
+                agg['exhaustive'] = False
+                out_lines.append('NOTE: %s[%s] not applicable to this tree (%s); the property is decided by its other harnesses' % (
+                    n, impl, agg['inapplicable'][:200]))
+            elif agg['reached'] == 0 and not violations and not agg['known_hits']:
                 harness_errors.append('%s[%s]: vacuous - oracle never reached' % (n, impl))
             per_h.append(agg)
         for n, res in custom.items():
